@@ -593,7 +593,7 @@ def rule_map_ops(ctx, c, rule):
             if "DanglingItem" in g.term(b)["arg_tys"][0]:
                 dg.append(g.path)
     holders = sorted(a["path"] for a in c.facts.adts.values() for v in a["variants"] for f in v["fields"]
-                     if "DanglingItem" in f["ty"] and "HashMap" in f["ty"])
+                     if "DanglingItem" in f["ty"] and "HashMap" in f["ty"] and not f["ty"].lstrip().startswith("&"))      # owning, not borrowing
     ctx.check(holders == ["fastrace::collector::global_collector::ActiveCollector"], rule, "fastrace::collector::global_collector::ActiveCollector", "-",
               "parked attachments live only inside the per-trace ActiveCollector (they die with their trace)", "%s" % holders,
               "types holding a danglings map: %s" % holders, extra="danglings-holder")
